@@ -74,6 +74,16 @@ CHECKS = {
         text="estimate() = headline accessor (term identity / bit-precise), concatenate! base+step+accessors complete; collect/extend/add-loop agreement for all types "
              "with FromIterator/Extend for sequences of length <= 3 (bounded, listed separately in the evidence).",
         note="Bounded part: input length <= 3. Recorder stubs replace add in the glue harnesses. Trusted: CBMC, kani::stub."),
+    "C18": dict(engine="K", category="proof", design="27",
+        technique="Kani proof harnesses over the derive-generated Serialize/Deserialize code of every state struct (serde, serde_derive, serde-big-array compiled into the proof) "
+                  "against a minimal lossless serde data format; structural obligations on the syn AST; bounded checkpoint corpus through the real serde_json",
+        text="For every estimator type and EVERY assignment of finite 64-bit words to its state struct: serialising leaves the state unchanged, deserialising the result succeeds and "
+             "returns the state word for word, with fields matched by name (self-describing formats) and by position. Word-for-word identity of the state carries every statistic and every "
+             "continuation because accessors, add and merge are functions of the state words (structural obligation: forbid(unsafe_code), no statics, no interior mutability). "
+             "The statement's premise 'a lossless format' is made executable as contracts/kani/serde_fmt.rs; the real serde_json/ryu are exercised only by a bounded corpus "
+             "(checkpoint at every position of a 14-value stream, before/after merges), listed as bounded and never counted.",
+        note="Trusted: CBMC; the token format being lossless (by construction); configurations Moments N in {4,6}, histogram LEN in {10,3}. serde_json + ryu + float parsing are NOT proved (bounded corpus only). "
+             "`#![forbid(unsafe_code)]` is lifted under cfg(kani) in the scratch copy only, for the harness's raw word reads."),
     "C19": dict(engine="K+VL", category="other", design="6/C19",
         technique="Kani wiring check of impl_from_par_iterator! against an executable specification stub of rayon's fold/reduce contract (bounded), Verus merge-tree lemma; real concurrency not applicable",
         text="Bounded (<= 3 items, <= 3 contiguous chunks, both bracketings, optional identities): every item is absorbed exactly once by the fold/reduce wiring "
@@ -94,10 +104,7 @@ CHECKS = {
 
 NOT_YET = {}
 
-NA = {
-    "C18": "serde round trip: the behaviour lives in serde/serde_json/ryu/derive-generated code, none of which a contract on a "
-           "function of this crate can express; neither Verus nor Kani reaches that code here (DESIGN.md section 6, C18).",
-}
+NA = {}
 
 
 def main():
